@@ -410,10 +410,10 @@ _C13R = ["github.com/obolnetwork/charon/app/k1util.Sign=.vSign", "github.com/obo
 CHECKS["C13"] = {
     "pkg": "./dkg/bcast",
     "parallel": 4,
-    "quick": [{"harness": "VerifC13Bcast", "params": {"r": [1, 2], "two": 0}, "redirects": _C13R},
-              {"harness": "VerifC13Bcast", "params": {"r": 1, "two": 1}, "redirects": _C13R},
+    "quick": [{"harness": "VerifC13Bcast", "params": {"r": [1, 2], "two": 0, "viareg": 0}, "redirects": _C13R},
+              {"harness": "VerifC13Bcast", "params": {"r": 1, "two": 1, "viareg": [0, 1]}, "redirects": _C13R},
               {"harness": "VerifC13Intf", "params": {}, "redirects": _C13R}],
-    "thorough": [{"harness": "VerifC13Bcast", "params": {"r": [1, 2, 3], "two": [0, 1]}, "redirects": _C13R, "cross": True, "timeout_ms": 300000},
+    "thorough": [{"harness": "VerifC13Bcast", "params": {"r": [1, 2, 3], "two": [0, 1], "viareg": [0, 1]}, "redirects": _C13R, "cross": True, "timeout_ms": 300000},
                  {"harness": "VerifC13Intf", "params": {}, "redirects": _C13R, "cross": True}],
     "bounds": {
         "quick": "3 members (one faulty sender, two honest); the sender issues r<=2 signature requests to each honest member and to an instance of member 2 running ANOTHER session (message id in {two registered ids, one unregistered}, payload byte symbolic), signs two arbitrary (session, id, payload) tuples itself, then delivers one message to each honest member whose three signatures are picked symbolically from everything it holds (incl. garbage)",
